@@ -298,7 +298,9 @@ func runC09(c *Ctx) {
 			}
 			verify = func(v any) error { return v.(*cose.SignMessage).Verify(m.ext, vs...) }
 		case "signature":
-			verify = func(v any) error { return v.(*cose.Signature).Verify(m.keys[0].Verifier, []byte{0x40}, m.payload, m.ext) }
+			verify = func(v any) error {
+				return v.(*cose.Signature).Verify(m.keys[0].Verifier, []byte{0x40}, m.payload, m.ext)
+			}
 		}
 		c09one(rec, kind, "reference-signed", m.bytes, verify, in)
 		if kind == "signature" {
